@@ -750,8 +750,8 @@ Proof.
   - intros _. exists l. split.
     + unfold good_chain. st_simp. rewrite upd_same. rewrite Sa, Sz. split; [|split; [exact ND|split]].
       * eapply chain_of_frame; [|eapply path_chain; [exact P|lia]].
-        intros x Hx. rewrite In1 by assumption. reflexivity.
-      * intros x Hx. destruct (Mem x Hx) as (R&Fi&Ma&Si). unfold member_ok. rewrite In1 by assumption. cbn. auto.
+        intros x Hx. st_simp. rewrite In1 by assumption. reflexivity.
+      * intros x Hx. destruct (Mem x Hx) as (R&Fi&Ma&Si). unfold member_ok. st_simp. rewrite In1 by assumption. cbn. auto.
       * rewrite (sumsz_frame s _ l); [lia|]. intros x Hx. st_simp. rewrite In1 by assumption. reflexivity.
     + intros g l2 x Hg Lg G2 X1 X2. destruct (Mem x X1) as (_&Fi&_).
       destruct G2 as (_&_&M2&_). destruct (M2 x X2) as (_&_&Fi2&_). congruence.
@@ -766,4 +766,137 @@ Proof.
   - inversion H; subst; exact F.
   - eapply free_bad_entry_inv; [eapply Inv_quiet; eauto| |exact H].
     destruct F as [E _]. rewrite E. exact NL.
+Qed.
+
+(* slots that are not mapped belong to no loaded chain and may change freely *)
+Lemma Inv_slots : forall N s s', Inv N s -> ents s' = ents s ->
+  (forall x, s_mapped (sls s x) = false \/ core_le (sls s x) (sls s' x)) -> Inv N s'.
+Proof.
+  intros N s s' I E C.
+  apply (Inv_step N s s' 0 (fun x => s_mapped (sls s x) = false)); auto.
+  - intros; rewrite E; reflexivity.
+  - intros g l x Hg Lg (_&_&M&_) Hx Hm. destruct (M x Hx) as (_&Mx&_). congruence.
+  - rewrite E. apply (iv_ent N s I).
+  - intros L. assert (L0 : loaded s 0) by (unfold loaded in *; rewrite <- E; exact L).
+    destruct (iv_chain N s I 0 L0) as [l G]. exists l. split.
+    + eapply good_chain_frame; [rewrite E; reflexivity| |exact G].
+      intros x Hx. destruct (C x) as [Mf|Cx]; [|exact Cx].
+      destruct G as (_&_&M&_). destruct (M x Hx) as (_&Mx&_). congruence.
+    + intros g l2 x Hg Lg G2 X1 X2. eapply (iv_disj N s I 0 g); eauto.
+Qed.
+
+Lemma map_slot_inv : forall N pos i h s s', Inv N s -> map_slot N pos i h s = Ok s' ->
+  Inv N s' /\ ents s' = ents s.
+Proof.
+  intros N pos i h s s' I H. unfold map_slot in H.
+  destruct (negb (ls_ok N pos i)); [discriminate|].
+  destruct (s_mapped (sls s i)) eqn:M; [discriminate|].
+  destruct (s_freed (sls s i)); [discriminate|]. inversion H; subst s'; clear H.
+  split; [|reflexivity]. apply (Inv_slots N s); [exact I|reflexivity|].
+  intros x. st_simp. unfold upd. destruct (x =? i) eqn:E; [left; assert (x = i) by lia; subst; exact M|right; apply core_le_refl].
+Qed.
+
+(* "f is being loaded, and compared with s only entry f and bookkeeping fields of slots differ" *)
+Definition tw (f : Z) (s s' : st) : Prop :=
+  (forall x, core_le (sls s x) (sls s' x)) /\ (forall g, g <> f -> ents s' g = ents s g) /\
+  e_state (ents s' f) = LeLoading /\ a_writing (ents s' f) = true.
+
+Lemma Inv_tw : forall N f s s', Inv N s -> tw f s s' -> Inv N s'.
+Proof.
+  intros N f s s' I (C&E&St&W). apply (Inv_keep N s s' f); auto.
+  - unfold ent_ok. rewrite St. exact W.
+  - rewrite St. discriminate.
+Qed.
+
+Lemma tw_set_ent : forall f s s' e, tw f s s' -> e_state e = LeLoading -> a_writing e = true -> tw f s (set_ent s' f e).
+Proof.
+  intros f s s' e (C&E&St&W) Se We. unfold tw. st_simp. rewrite upd_same.
+  split; [exact C|]. split; [|split; assumption].
+  intros g Hg. rewrite upd_other by assumption. auto.
+Qed.
+
+Lemma tw_set_more : forall f s s' i v, tw f s s' -> tw f s (set_sl s' i (s_set_more (sls s' i) v)).
+Proof.
+  intros f s s' i v (C&E&St&W). unfold tw. st_simp.
+  split; [|split; [exact E|split; assumption]].
+  intros x. unfold upd. destruct (x =? i) eqn:Q; [|apply C].
+  assert (x = i) by lia. subst x. eapply core_le_trans; [apply C|]. unfold core_le; cbn; auto.
+Qed.
+
+Lemma import_ok_state : forall h m e e5, import_entry h m e = ImpOk e5 ->
+  e_state e5 = e_state e /\ a_writing e5 = a_writing e.
+Proof.
+  intros h m e e5 H. unfold import_entry in H. destruct m as [| |hk mk0 mk1 ssz pr hl]; try discriminate.
+  destruct (negb hk); [discriminate|].
+  match type of H with context [match ?o with Some _ => _ | None => _ end] => destruct o end; [|discriminate].
+  destruct pr; [discriminate|]. inversion H; subst. cbn. auto.
+Qed.
+
+Lemma add_tail_inv : forall N pos f i h s s',
+  Inv N s -> e_state (ents s f) = LeLoading -> add_tail N pos f i h s = Ok s' -> Inv N s'.
+Proof.
+  intros N pos f i h s s' I L H. unfold add_tail in H.
+  match type of H with context [if ?c then free_bad_entry _ _ _ _ else _] => destruct c end.
+  - eapply free_bad_entry_inv; [exact I| |exact H]. rewrite L; discriminate.
+  - apply bind_ok in H. destruct H as [s1 [H1 H2]].
+    apply map_slot_inv in H1; [|exact I]. destruct H1 as [I1 E1].
+    match type of H2 with context [if ?c then _ else _] => destruct c end.
+    + eapply finalize_or_free_inv; [exact I1| |exact H2]. rewrite E1, L. discriminate.
+    + inversion H2; subst; exact I1.
+Qed.
+
+Lemma add_slot_to_entry_inv : forall N pos f i h m s s',
+  Inv N s -> e_state (ents s f) = LeLoading -> add_slot_to_entry N pos f i h m s = Ok s' -> Inv N s'.
+Proof.
+  intros N pos f i h m s s' I L H. unfold add_slot_to_entry in H.
+  destruct (a_writing (ents s f)) eqn:W; cbn [negb] in H; [|discriminate].
+  assert (T0 : tw f s s). { split; [intros; apply core_le_refl|]. split; [reflexivity|split; assumption]. }
+  apply bind_ok in H. destruct H as [s2 [Hc H]].
+  assert (T2 : tw f s s2).
+  { destruct (e_anch (ents s f)).
+    - destruct (negb (ls_ok N pos (a_start (ents s f)))); [discriminate|].
+      destruct (negb (ls_ok N pos i)); [discriminate|].
+      destruct (negb (s_more (sls s i) <? 0)); [discriminate|]. inversion Hc; subst s2; clear Hc.
+      apply tw_set_more. apply tw_set_more. exact T0.
+    - destruct (negb (ls_ok N pos i)); [discriminate|].
+      destruct (negb (s_more (sls s i) <? 0)); [discriminate|]. inversion Hc; subst s2; clear Hc.
+      pose proof (tw_set_more f s s i (a_start (ents s f)) T0) as T1.
+      apply tw_set_ent; [exact T1| |]; st_simp; cbn; assumption. }
+  clear Hc. cbv zeta in H.
+  destruct T2 as (C2&E2&S2&W2).
+  assert (T3 : tw f s (set_ent s2 f (e_set_size (ents s2 f) (e_size (ents s2 f) + h_psz h)))).
+  { apply tw_set_ent; [split; [exact C2|split; [exact E2|split; assumption]]|cbn; assumption|cbn; assumption]. }
+  set (s3 := set_ent s2 f (e_set_size (ents s2 f) (e_size (ents s2 f) + h_psz h))) in *.
+  assert (L3 : e_state (ents s3 f) = LeLoading) by (destruct T3 as (_&_&X&_); exact X).
+  destruct (h_first h =? i).
+  - destruct (e_anch (ents s3 f)).
+    + apply bind_ok in H. destruct H as [s4 [H4 H5]]. inversion H5; subst s'; clear H5.
+      eapply Inv_quiet; [|split; [reflexivity|intros; apply core_le_refl]].
+      eapply free_bad_entry_inv; [eapply Inv_tw; [exact I|exact T3]| |exact H4]. rewrite L3; discriminate.
+    + assert (T4 : tw f s (set_ent s3 f (e_set_anch (ents s3 f) true))).
+      { destruct T3 as (A&B&C&D). apply tw_set_ent; [split; [exact A|split; [exact B|split; assumption]]|cbn; assumption|cbn; assumption]. }
+      set (s4 := set_ent s3 f (e_set_anch (ents s3 f) true)) in *.
+      destruct (import_entry h m (ents s4 f)) as [bf|e5] eqn:Imp.
+      * eapply free_bad_entry_inv; [| |exact H].
+        -- destruct bf; [|eapply Inv_tw; eauto].
+           eapply Inv_quiet; [eapply Inv_tw; [exact I|exact T4]|split; [reflexivity|intros; apply core_le_refl]].
+        -- destruct T4 as (_&_&X&_). destruct bf; st_simp; rewrite X; discriminate.
+      * apply import_ok_state in Imp. destruct Imp as [Se We].
+        destruct T4 as (A4&B4&C4&D4).
+        assert (T5 : tw f s (set_ent s4 f e5)).
+        { apply tw_set_ent; [split; [exact A4|split; [exact B4|split; assumption]]|congruence|congruence]. }
+        assert (T6 : tw f s (set_ent (set_ent s4 f e5) f (e_set_swapsz e5 (h_esz h)))).
+        { apply tw_set_ent; [exact T5|cbn; congruence|cbn; congruence]. }
+        assert (L5 : e_state (ents (set_ent s4 f e5) f) = LeLoading) by (destruct T5 as (_&_&X&_); exact X).
+        assert (L6 : e_state (ents (set_ent (set_ent s4 f e5) f (e_set_swapsz e5 (h_esz h))) f) = LeLoading)
+          by (destruct T6 as (_&_&X&_); exact X).
+        destruct (negb (h_esz h =? 0)).
+        -- destruct (h_esz h =? rr_entry_size_max); [discriminate|].
+           destruct (a_swapsz e5 =? 0).
+           ++ eapply add_tail_inv; [eapply Inv_tw; [exact I|exact T6]|exact L6|exact H].
+           ++ destruct (negb (h_esz h =? a_swapsz e5)).
+              ** eapply free_bad_entry_inv; [eapply Inv_tw; [exact I|exact T5]| |exact H]. rewrite L5; discriminate.
+              ** eapply add_tail_inv; [eapply Inv_tw; [exact I|exact T5]|exact L5|exact H].
+        -- eapply add_tail_inv; [eapply Inv_tw; [exact I|exact T5]|exact L5|exact H].
+  - eapply add_tail_inv; [eapply Inv_tw; [exact I|exact T3]|exact L3|exact H].
 Qed.
